@@ -29,6 +29,15 @@ BOUNDS = {
 }
 
 
+def to_int(value) -> int:
+    # int() of an infinite float, or of an integer beyond the float range,
+    # raises OverflowError.  Such a number is outside every window.
+    try:
+        return int(value)
+    except OverflowError:
+        raise NumExcelError('The number is too large.')
+
+
 def handle_places(
         places: Union[Unused, func_xltypes.XlAnything]
 ) -> Optional[int]:
@@ -38,7 +47,7 @@ def handle_places(
     if isinstance(places, func_xltypes.Boolean):
         raise ValueExcelError('The `places` argument cannot be a boolean.')
 
-    places = int(places)
+    places = to_int(places)
     if not (1 <= places <= 10):
         raise NumExcelError('The number of places must be between 1 and 10.')
 
@@ -50,7 +59,7 @@ def handle_number(number: func_xltypes.XlAnything, origin) -> Union[int, str]:
         raise ValueExcelError('The number cannot be a boolean.')
 
     if origin == dec:
-        return int(number)
+        return to_int(number)
 
     if isinstance(number, func_xltypes.Blank):
         as_str = "0"
@@ -59,7 +68,7 @@ def handle_number(number: func_xltypes.XlAnything, origin) -> Union[int, str]:
         if number.is_decimal and not number.value.is_integer():
             raise NumExcelError('Number is not an integer.')
 
-        as_str = str(int(number))
+        as_str = str(to_int(number))
 
     elif isinstance(number, func_xltypes.Text):
         # An empty text counts as zero.  (The truth value of a Text is not
